@@ -137,7 +137,8 @@ def check_name(name, acc, tokens=None, case=None):
     try:
         got = parse_single_name_into_parts(name)
         obs = as_dict(got) if isinstance(got, NameParts) else ("not NameParts", repr(got))
-        if isinstance(got, NameParts):
+        if isinstance(got, NameParts) and (tokens is None or acc.evaluations % 8 == 0 or len(name) > 12):
+            # (every 8th enumerated name, all longer ones and all replays)
             # the returned object is the caller's: editing it (as in-place middlewares do) must not show up in later calls
             got.first.append("<edited>")
             got.von.insert(0, "<edited>")
